@@ -996,7 +996,17 @@ fn check_history_in(h: &History, scratch: &Path, out: &mut RunOut, case: &Value)
                     // (other tasks may still run while the failing task unwinds through a guard's drop)
                     _ => p.strip_prefix(&format!("boom-{}-{}-", k, spec.nonce)).map(|t| !t.is_empty() && rep.trace.starts_with(t)).unwrap_or(false),
                 };
-                if !ok {
+                if !ok && kind == BodyKind::PanicMutex && p.contains("PoisonError") {
+                    // F20 again: while the panicking holder unwinds through its guard's Drop another
+                    // task is scheduled, finds the lock poisoned, panics in its own `lock().unwrap()`,
+                    // and that second panic is what the run re-raises
+                    out.count("second_panic_during_unwind_surfaced", 1);
+                    out.violation(
+                        format!("C12:unwind-yield:second-panic-surfaces:{}", kind.name()),
+                        format!("{}: caught payload {:?} (a task that ran while the failing task was unwinding); expected \"boom-{}-{}-<prefix of {}>\"", ctx, p, k, spec.nonce, rep.trace),
+                        case.clone(),
+                    );
+                } else if !ok {
                     out.violation(
                         format!("C12:payload-not-the-failing-tasks-own:{}", kind.name()),
                         format!("{}: caught payload {:?}; expected {}", ctx, p, match kind {
